@@ -196,21 +196,26 @@ def history_shard(binpath, seed, sh):
     rng = common.rng_for(seed, PROP, 7000 + sh)
     W = scen.World(binpath)
     res = common.Result()
-    first_kinds = ["bad_signature", "expired_long_ago", "missing_link", "success", "unparseable_link"]
+    # "same_document_while_valid": the very same layout (and keys, and links) is verified while it is still valid - and
+    # succeeds - and again once its expiry has passed
+    first_kinds = ["same_document_while_valid", "bad_signature", "expired_long_ago", "missing_link", "success", "unparseable_link"]
     reqs, plans = [], []
     now = datetime.datetime.now(UTC)
     for i, fk in enumerate(first_kinds):
         # first verification
         a = pipeline.make_node(rng, W, 0, ["ed0"], expires="2001-01-01T00:00:00Z" if fk == "expired_long_ago" else None)
         # second verification: expires shortly after generation, verified only after that instant has passed
-        T = (now + datetime.timedelta(seconds=4 + i)).replace(microsecond=0)
+        T = (now + datetime.timedelta(seconds=(9 if fk == "same_document_while_valid" else 4 + i))).replace(microsecond=0)
         level = rng.choice(["top", "sub"])
         if level == "top":
             b = pipeline.make_node(rng, W, 0, ["ed0"], expires=scen.iso(T))
         else:
             b = pipeline.make_node(rng, W, 1, ["ed0"], nsteps=2, delegate_prob=1.0)
             b["steps"][0]["evidence"][0]["node"]["layout"]["expires"] = scen.iso(T)
-        pipeline.collect_requests(a, reqs)
+        if fk == "same_document_while_valid":
+            a = b
+        else:
+            pipeline.collect_requests(a, reqs)
         pipeline.collect_requests(b, reqs)
         plans.append((fk, a, b, T, level))
     wires = scen.sign_all(binpath, reqs, nproc=1)
@@ -238,7 +243,7 @@ def history_shard(binpath, seed, sh):
         m = c["meta"]
         if m["history"].startswith("first:"):
             if not scen.harness_failed(o):
-                want_ok = m["history"] == "first:success"
+                want_ok = m["history"] in ("first:success", "first:same_document_while_valid")
                 got_ok = o["runs"][0]["v"] == "ok"
                 res.classes[f"history_first:{'ok' if got_ok else 'err'}"] += 1
                 if want_ok != got_ok:
@@ -286,7 +291,7 @@ def main(ctx):
     req = ["top:expired", "top:unexpired_ok", "sub:expired", "sub:unexpired_ok", "notation:offset:expired",
            "notation:offset:unexpired_ok", "notation:zero-offset:expired", "notation:Z:expired", "notation:Z:unexpired_ok",
            "fractional:expired", "fractional:unexpired_ok", "history:after:bad_signature:expired", "history:after:success:expired",
-           "history:after:expired_long_ago:expired", "sub_layout_next_to_other_evidence:expired", "sub_layout_next_to_other_evidence:unexpired_ok", "summary_name_given:expired", "summary_name_given:unexpired_ok", "process_environment:SOURCE_DATE_EPOCH:expired", "process_environment:SOURCE_DATE_EPOCH:unexpired_ok", "process_time_zone:west_of_utc:expired", "process_time_zone:west_of_utc:unexpired_ok",
+           "history:after:expired_long_ago:expired", "history:after:same_document_while_valid:expired", "sub_layout_next_to_other_evidence:expired", "sub_layout_next_to_other_evidence:unexpired_ok", "summary_name_given:expired", "summary_name_given:unexpired_ok", "process_environment:SOURCE_DATE_EPOCH:expired", "process_environment:SOURCE_DATE_EPOCH:unexpired_ok", "process_time_zone:west_of_utc:expired", "process_time_zone:west_of_utc:unexpired_ok",
            "process_time_zone:east_of_utc:expired", "process_time_zone:east_of_utc:unexpired_ok"]
     return common.finish(
         PROP, ctx.tier, ctx.seed, res, t0=ctx.t0,
